@@ -229,6 +229,37 @@ def apply_op(idnt, op, log=None):
                 else:
                     v = copy.deepcopy(v)
                 idnt.fit_properties[op["key"]] = v
+            elif kind == "nudge":
+                # tiny change of a stored numeric setting (or of one
+                # parameter attribute), applied through the given route
+                from nanite.fit import FP_DEFAULT
+                key = op["key"]
+                cur = idnt.fit_properties.get(key, FP_DEFAULT.get(key))
+                if key == "params_initial":
+                    cur = copy.deepcopy(idnt.get_initial_fit_parameters())
+                    nm = op["param"] if op["param"] in cur \
+                        else list(cur)[0]
+                    q = cur[nm]
+                    attr = op.get("attr", "value")
+                    if attr == "value":
+                        q.set(value=float(q.value) + op["delta"] * max(
+                            abs(float(q.value)), op.get("scale", 1e-9)))
+                    elif attr == "max":
+                        q.set(max=op.get("to", 1e9))
+                    elif attr == "min":
+                        q.set(min=op.get("to", -1e9))
+                    elif attr == "vary":
+                        q.set(vary=not q.vary)
+                    new = cur
+                elif key == "range_x":
+                    new = [float(x) for x in cur]
+                    new[op.get("index", 0) % 2] += op["delta"]
+                else:
+                    new = float(cur) + op["delta"]
+                if op.get("route") == "fit":
+                    idnt.fit_model(**{key: new})
+                else:
+                    idnt.fit_properties[key] = new
             elif kind == "rate":
                 kw = copy.deepcopy(op.get("kw", {}))
                 out["ret"] = fhex(idnt.rate_quality(**kw))
@@ -622,6 +653,30 @@ def gen_setfp(rng):
     return {"op": "setfp", "key": k, "value": kw[k]}
 
 
+def gen_nudge(rng):
+    key = rng.choice(["range_x", "range_x", "weight_cp", "gcf_k",
+                      "params_initial", "params_initial"])
+    op = {"op": "nudge", "key": key,
+          "route": rng.choice(["fit", "fit", "setitem"])}
+    if key == "range_x":
+        op["index"] = rng.randrange(2)
+        op["delta"] = rng.choice([5e-9, -3e-9, 1e-10, 8e-9, 2e-8, 1e-12])
+    elif key == "weight_cp":
+        op["delta"] = rng.choice([1e-9, 5e-9, 1e-12])
+    elif key == "gcf_k":
+        op["delta"] = rng.choice([1e-9, 1e-6, -1e-7])
+    else:
+        op["param"] = rng.choice(["E", "contact_point", "baseline", "R",
+                                  "nu"])
+        op["attr"] = rng.choice(["value", "value", "max", "min", "vary"])
+        op["delta"] = rng.choice([1e-9, 1e-6, -1e-7, 1e-12])
+        if op["attr"] == "max":
+            op["to"] = rng.choice([1e9, 1e12, 1e6])
+        if op["attr"] == "min":
+            op["to"] = rng.choice([-1e9, -1.0, -1e-3])
+    return op
+
+
 def gen_fault(rng, seams_pool, max_at=4):
     return {"seam": rng.choice(seams_pool),
             "at": rng.randint(1, max_at),
@@ -714,11 +769,24 @@ class CurveEngineC03:
                     kw.pop("gcf_k", None)
                 if not swarm["edelta"]:
                     kw.pop("optimal_fit_edelta", None)
+                if rng.random() < 0.15:
+                    # settings and a (possibly different) pipeline in one
+                    # call: the pipeline is applied before the fit part
+                    if swarm["invalid"] and rng.random() < 0.15:
+                        st, o = gen_invalid_request(rng)
+                    else:
+                        st = gen_pipeline(rng)
+                        o = gen_options(rng, st)
+                    kw["preprocessing"] = st
+                    if o is not None:
+                        kw["preprocessing_options"] = o
                 op = {"op": "fit", "kw": kw}
                 if swarm["faults"] and rng.random() < 0.3:
                     op["fault"] = gen_fault(
                         rng, ["minimize", "minimize", "model", "poc"],
                         6 if kw.get("optimal_fit_edelta") else 4)
+            elif r < 0.69:
+                op = gen_nudge(rng)
             elif r < 0.75:
                 op = gen_setfp(rng)
                 if not swarm["gcf"] and op["key"] == "gcf_k":
@@ -785,8 +853,13 @@ class CurveEngineC03:
                     probes["fault fired inside multi-pass/plateau fit"] += 1
             if not outcome.get("ok") and not outcome.get("injected"):
                 probes["op rejected (invalid call)"] += 1
-            if had_result and op["op"] in ("prep", "fit", "setfp", "getinit"):
+            if had_result and op["op"] in ("prep", "fit", "setfp", "getinit",
+                                           "nudge"):
                 nontrivial = True
+            if op["op"] == "nudge" and outcome.get("ok"):
+                probes["tiny change of a numeric setting"] += 1
+            if op["op"] == "fit" and "preprocessing" in op.get("kw", {}):
+                probes["fit call carrying a pipeline"] += 1
             if had_hash and "hash" not in idnt.fit_properties:
                 probes["fit invalidated"] += 1
             if (not had_hash and "hash" in idnt.fit_properties
@@ -1572,41 +1645,67 @@ class CurveEngineC09:
                         f"a cached rating was returned for {key} although "
                         f"{what}", i)
                     break
-            # Q2 value
+            # Q2 value: (i) the statement's rule applied to the features of
+            # a freshly rebuilt curve: a failed binary criterion gives 0,
+            # else undefined features give -1, else the regressor's
+            # prediction; (ii) what the standalone rater returns
             fitted = feats["has_hash"] and feats["success"]
-            if not fitted:
-                probes["rated without a successful current fit"] += 1
+            fresh, err = build_fresh_obj(idnt, cfg)
+            if err is not None:
+                if fitted:
+                    violation = make_violation(
+                        self.prop, "Q2", "fresh-raises", feats,
+                        f"fresh copy with stored settings raises {err}", i)
+                    break
+                # unusable stored settings on an unfitted curve: only the
+                # coarse rule applies
                 napp = int(np.sum(np.asarray(idnt["segment"]) == 0))
                 allowed = [-1.0] + ([0.0] if napp < 600 else [])
                 if val not in allowed:
                     violation = make_violation(
                         self.prop, "Q2", "nofit-value", feats,
-                        f"no successful current fit, approach points "
-                        f"{napp}: returned {val}, allowed {allowed}", i)
+                        f"no successful current fit: returned {val}, "
+                        f"allowed {allowed}", i)
                     break
-            else:
-                probes["rated with a successful current fit"] += 1
-                fresh, err = build_fresh_obj(idnt, cfg)
-                if err is not None:
-                    violation = make_violation(
-                        self.prop, "Q2", "fresh-raises", feats,
-                        f"fresh copy with stored settings raises {err}", i)
-                    break
-                with warnings.catch_warnings():
-                    warnings.simplefilter("ignore")
-                    exp = float(ref_rater.rate(datasets=fresh)[0])
-                if not (val == exp or (val != val and exp != exp)):
-                    violation = make_violation(
-                        self.prop, "Q2", "value", feats,
-                        f"rate_quality returned {val!r}, the standalone "
-                        f"rater on a fresh copy gives {exp!r}", i)
-                    break
-                if exp == 0:
-                    probes["binary criterion failed -> 0"] += 1
-                elif exp == -1:
-                    probes["undefined feature -> -1"] += 1
+                continue
+            from nanite.rate.features import IndentationFeatures
+            with warnings.catch_warnings():
+                warnings.simplefilter("ignore")
+                fbin = np.asarray(IndentationFeatures.compute_features(
+                    fresh, names=ref_rater.names, which_type="binary"))
+                fcon = np.asarray(IndentationFeatures.compute_features(
+                    fresh, names=ref_rater.names,
+                    which_type=["continuous"]))
+                if np.any(fbin == 0):
+                    exp, why = 0.0, "binary criterion failed -> 0"
+                elif not np.all(np.isfinite(fcon)):
+                    exp, why = -1.0, "undefined feature -> -1"
                 else:
-                    probes["regressor prediction"] += 1
+                    exp = float(ref_rater.pipeline.predict(
+                        np.atleast_2d(fcon))[0])
+                    why = "regressor prediction"
+                exp2 = float(ref_rater.rate(datasets=fresh)[0])
+            probes[why] += 1
+            if fitted:
+                probes["rated with a successful current fit"] += 1
+            else:
+                probes["rated without a successful current fit"] += 1
+                if exp not in (0.0, -1.0):
+                    raise core.HarnessError(
+                        "features of an unfitted curve are defined")
+            feats["expected_kind"] = why.split(" ->")[0]
+            if not (val == exp):
+                violation = make_violation(
+                    self.prop, "Q2", "value", feats,
+                    f"rate_quality returned {val!r}; the features of a "
+                    f"freshly rebuilt curve give {exp!r} ({why})", i)
+                break
+            if not (val == exp2):
+                violation = make_violation(
+                    self.prop, "Q2", "standalone", feats,
+                    f"rate_quality returned {val!r}, the standalone rater "
+                    f"on a fresh copy gives {exp2!r}", i)
+                break
             # Q4 range
             if reg in RANGE_CHECKED and not (val == -1 or 0 <= val <= 10):
                 violation = make_violation(
@@ -1911,6 +2010,14 @@ def c10_gen_scenario(rng, sid):
         {"kind": "param", "name": "baseline", "attr": "vary",
          "value": False},
         {"kind": "param", "name": "E", "attr": "max", "value": 1e5},
+        {"kind": "param", "name": "E", "attr": "max",
+         "value": rng.choice([1e4, 5e3, 2e4])},
+        {"kind": "param", "name": "E", "attr": "min",
+         "value": rng.choice([100.0, 1e3])},
+        {"kind": "param", "name": "contact_point", "attr": "max",
+         "value": rng.choice([1e-7, 0.0])},
+        {"kind": "param", "name": "baseline", "attr": "min",
+         "value": rng.choice([0.0, -1e-11])},
         {"kind": "param", "name": "contact_point", "attr": "vary",
          "value": False},
         {"kind": "param", "name": rng.choice(["R", "alpha", "nu"]),
@@ -1965,6 +2072,12 @@ def c10_gen_scenario(rng, sid):
         if "correct_force_slope" in steps:
             opts["correct_force_slope"] = {"region": "baseline",
                                            "strategy": "shift"}
+        if "correct_force_slope" not in steps and rng.random() < 0.5:
+            # legal: options for a step that is not in this call's list
+            opts["correct_force_slope"] = {"region": "approach",
+                                           "strategy": "drift"}
+        if rng.random() < 0.3:
+            opts["smooth_height"] = {}
         ops.append({"op": "new", "slot": s, "what": "options", "spec": opts})
         route = rng.choice(["apply", "fit_kw", "details"])
         ops.append({"op": "prep", "steps": steps, "options": {"slot": s},
@@ -2114,6 +2227,8 @@ class CurveEngineC10:
         cfg = run["config"]["curve"]
         worlds = [(curves.make_curve(cfg), Caller(True)),
                   (curves.make_curve(cfg), Caller(False))]
+        FRESH_MEMO.clear()
+        FRESH_OBJ_MEMO.clear()
         log = []
         probes = core.collections.Counter()
         states = set()
@@ -2171,6 +2286,19 @@ class CurveEngineC10:
                     f"by-value caller: {core.jdump(oa)[:300]} vs "
                     f"{core.jdump(ov)[:300]}", i)
                 break
+            # A3: "the change is noticed and results are recomputed": the
+            # by-value world must equal a fresh curve with the stored
+            # settings (an edit that both callers' copies carry but the
+            # library overlooks leaves both worlds equally stale)
+            if op["op"] in ("fit", "prep", "setfp", "get_init"):
+                v3 = check_r1(self.prop, worlds[1][0], cfg, op, ov, i)
+                oracle_checks += 1
+                if v3 is not None:
+                    v3["rule"] = "A3"
+                    v3["features"] = dict(feats, r1_site=v3["site"])
+                    v3["site"] = "not-recomputed:" + v3["site"].split(":")[0]
+                    violation = v3
+                    break
             if oba != obv:
                 site = "obs"
                 for part in ("fp", "cols", "preprocessing",
